@@ -100,6 +100,7 @@ PARAM_CTORS = {
 
 def run(prog: Program, rep: Report, tier: str):
     rule_family(prog, rep)
+    rule_family_coverage(prog, rep)
     rule_bind(prog, rep)
     rule_access(prog, rep)
     rule_covariance(prog, rep)
@@ -146,6 +147,21 @@ def rule_family(prog, rep):
             got = Interp(prog).eval_method(c, m, args)
             want = eval_ref_method(prog, c, src, args)
             compare(rep, "C05.family", method_site(prog, c, m), f"{name}.{m}", got, want, m)
+
+
+def rule_family_coverage(prog, rep):
+    """A distribution class that brings its own density / sampler and is in none of the tables is not compared with
+    anything: say so instead of passing it silently."""
+    from ..model import DIST as _DIST, TRANSFORMED as _TR
+    known = {D + n for n in STANDARD} | {_TR, D + "VmapMixture"}
+    for c in prog.subclasses(_DIST):
+        if c.qualname in known or prog.is_abstract(c):
+            continue
+        own = [m for m in ("_log_prob", "_sample", "_sample_and_log_prob") if m in c.methods]
+        if own:
+            rep.undecided("C05.family", method_site(prog, c, own[0]), f"{c.name}:{'+'.join(own)}",
+                          f"{c.qualname} defines its own {', '.join(own)} but no reference density / sampler is recorded "
+                          f"for it (rules/c05.py STANDARD): density-sampler agreement of this family is not decided")
 
 
 def rule_bind(prog, rep):
